@@ -278,6 +278,25 @@ func (c *checker) raceHalf(a *runOutcome) {
 	if len(sets) > 0 {
 		sets[0] = append(sets[0], raceReq{Method: "GET", Path: "/api/preferenceFunctions"}, raceReq{Method: "GET", Path: "/api/preferenceFunctions"})
 	}
+	// larger requests than the simulated half usually generates, each against two copies of itself:
+	// a race on state that only bigger inputs reach (caches with size thresholds) needs the
+	// detector, not a wrong response, so a single cheap parallel round per request is enough
+	{
+		nExtra := 2500
+		if c.tier == "thorough" {
+			nExtra = 40000
+		}
+		for i := 0; i < nExtra; i++ {
+			r := NewRand(MixN(Mix(c.seed, "race-extra"), uint64(i)))
+			g := &Gen{R: r, O: SwarmOpts(r)}
+			g.O.MaxAlts = r.Range(4, 12)
+			g.O.MaxCrit = r.Range(5, 9)
+			g.O.MaxBiases = r.Range(1, 4)
+			g.O.MinBiases = 1
+			one := raceReq{Method: "POST", Path: "/api/decide", Body: JSONBytes(g.Valid().Body)}
+			sets = append(sets, []raceReq{one, one, one})
+		}
+	}
 	// requests after which the process-wide state fingerprint differed in the simulated half are
 	// prime suspects for an unsynchronised write: each runs against copies of itself
 	seen := map[string]bool{}
